@@ -304,7 +304,7 @@ func (p *Prog) closureLabel(f *ssa.Function) string {
 
 func init() {
 	register(&Rule{
-		Name: "result-with-error-untouched", Props: []string{"C19", "C16", "C12", "C17"}, Engine: "SSA", Floor: 10,
+		Name: "result-with-error-untouched", Props: []string{"C19", "C16", "C12", "C17"}, Engine: "SSA", Floor: 14,
 		Doc: "a frame that comes back together with an error is not the caller's: the readers return nil with an error, and the client's readNext returns a frame it has already released or one whose body has become the connection's error. At every call of a function of the package returning (pointer..., error) no pointer result is used anywhere but where the error has been found nil: a connection that was not dialled, a frame that was not read",
 		Run: func(p *Prog, r *Out) {
 			n := 0
@@ -320,11 +320,19 @@ func init() {
 						}
 						res := c.Common().Signature().Results()
 						g := c.Common().StaticCallee()
-						if g == nil || (g.Pkg != p.SPkg && g.Pkg != p.SUPkg) || res.Len() < 2 || res.At(res.Len()-1).Type().String() != "error" {
+						if res.Len() < 2 || res.At(res.Len()-1).Type().String() != "error" {
 							continue
 						}
+						own := g != nil && (g.Pkg == p.SPkg || g.Pkg == p.SUPkg)
 						for ri := 0; ri < res.Len()-1; ri++ {
-							if _, isPtr := res.At(ri).Type().Underlying().(*types.Pointer); !isPtr {
+							switch res.At(ri).Type().Underlying().(type) {
+							case *types.Pointer:
+							case *types.Slice, *types.Interface:
+								// what another package hands back with an error: bytes not all there, a connection not made
+								if own {
+									continue
+								}
+							default:
 								continue
 							}
 							var frv, errv ssa.Value
@@ -338,6 +346,9 @@ func init() {
 								}
 							}
 							callee := p.calleeName(c.Common())
+							if callee == "" {
+								callee = "the function value " + p.vdesc(c.Common().Value)
+							}
 							fn := p.closureLabel(f)
 							what := "what"
 							if p.isFrameHeaderPtr(res.At(ri).Type()) {
@@ -401,6 +412,35 @@ func init() {
 								}
 								return false
 							}
+							// the edge pred -> succ is taken only with the error nil
+							edgeNilKnown := func(pred, succ *ssa.BasicBlock) bool {
+								if nilKnown(pred) {
+									return true
+								}
+								if len(pred.Instrs) == 0 {
+									return false
+								}
+								iff, ok := pred.Instrs[len(pred.Instrs)-1].(*ssa.If)
+								if !ok {
+									return false
+								}
+								bo, ok := iff.Cond.(*ssa.BinOp)
+								if !ok || (bo.Op != token.NEQ && bo.Op != token.EQL) {
+									return false
+								}
+								ev, other := bo.X, bo.Y
+								if !inErrs(ev) {
+									ev, other = bo.Y, bo.X
+								}
+								if k, isK := other.(*ssa.Const); !inErrs(ev) || !isK || !k.IsNil() {
+									return false
+								}
+								t := pred.Succs[1]
+								if bo.Op == token.EQL {
+									t = pred.Succs[0]
+								}
+								return t == succ && pred.Succs[0] != pred.Succs[1]
+							}
 							for round := 0; round < 4; round++ {
 								nilBlocks = nilBlocks[:0]
 								for _, ev := range errs {
@@ -442,7 +482,7 @@ func init() {
 										for i, e := range phi.Edges {
 											if inErrs(e) {
 												carries = true
-											} else if !nilKnown(b2.Preds[i]) {
+											} else if !edgeNilKnown(b2.Preds[i], b2) {
 												all = false
 											}
 										}
@@ -456,20 +496,32 @@ func init() {
 									break
 								}
 							}
-							// the frame, and the phis it flows into
+							// the value, its conversions, and the phis it flows into from
+							// where the error has not been found nil yet
 							frames := []ssa.Value{frv}
+							addFrame := func(v ssa.Value) {
+								for _, x := range frames {
+									if x == v {
+										return
+									}
+								}
+								frames = append(frames, v)
+							}
 							for i := 0; i < len(frames); i++ {
 								for _, u := range *frames[i].Referrers() {
-									if phi, isPhi := u.(*ssa.Phi); isPhi {
-										dup := false
-										for _, x := range frames {
-											if x == ssa.Value(phi) {
-												dup = true
+									switch x := u.(type) {
+									case *ssa.Phi:
+										for ei, e := range x.Edges {
+											if e == frames[i] && !edgeNilKnown(x.Block().Preds[ei], x.Block()) {
+												addFrame(x)
 											}
 										}
-										if !dup {
-											frames = append(frames, phi)
-										}
+									case *ssa.MakeInterface:
+										addFrame(x)
+									case *ssa.ChangeType:
+										addFrame(x)
+									case *ssa.ChangeInterface:
+										addFrame(x)
 									}
 								}
 							}
@@ -478,7 +530,7 @@ func init() {
 							for _, fv := range frames {
 								for _, u := range *fv.Referrers() {
 									switch x := u.(type) {
-									case *ssa.DebugRef, *ssa.Phi:
+									case *ssa.DebugRef, *ssa.Phi, *ssa.MakeInterface, *ssa.ChangeType, *ssa.ChangeInterface:
 										continue
 									case *ssa.Return:
 										// handed on together with the error: the caller's business
@@ -503,7 +555,7 @@ func init() {
 								r.undecided(key, p.ipos(in), "the frame is kept in a local that is read through memory; its uses cannot be followed")
 								continue
 							}
-							r.check(bad == "", key, p.ipos(in), "every use of the frame lies where err == nil is known", fn+" uses the frame "+callee+" returned where the error has not been found nil ("+bad+"): with an error it is nil, already back in its pool, or held by the connection's error")
+							r.check(bad == "", key, p.ipos(in), "every use of the frame lies where err == nil is known", fn+" uses "+what+" "+callee+" returned where the error has not been found nil ("+bad+"): with an error it is nil, already back in its pool, or held by the connection's error")
 						}
 					}
 				}
@@ -774,4 +826,119 @@ func onlyFeedsReturns(al *ssa.Alloc) bool {
 		}
 	}
 	return true
+}
+
+func init() {
+	register(&Rule{
+		Name: "previous-stream-lookup", Props: []string{"C01", "C08"}, Engine: "AST", Floor: 6,
+		Doc: "getPrevious, which the stream loop asks for the stream whose header block must have ended before a new HEADERS may start one, never answers with the newest stream of that origin (the one the HEADERS just created, whose block is by definition open): it counts from zero, hands out an element only of the origin asked for and only after it has passed one, and counts only those",
+		Run: func(p *Prog, r *Out) {
+			fd := p.decl("(Streams).getPrevious")
+			if fd == nil {
+				r.undecided("getPrevious", "?", "(Streams).getPrevious no longer resolves")
+				return
+			}
+			r.fn("(Streams).getPrevious")
+			pm := p.pmFor(fd)
+			zero := false
+			for _, s := range fd.Body.List {
+				if as, ok := s.(*ast.AssignStmt); ok && as.Tok == token.DEFINE && squash(p.text(as)) == "cnt:=0" {
+					zero = true
+				}
+			}
+			r.check(zero, "the count of streams passed starts at zero", p.pos(fd.Pos()), "cnt := 0", "getPrevious no longer starts its count at zero: the newest stream of the origin, the one just created, is handed out as the previous one, and every first HEADERS is answered with GOAWAY")
+			// guards around each non-nil return and each change of cnt
+			okRet, nRet, okInc, nInc := true, 0, true, 0
+			under := func(n ast.Node) (origin, passed bool) {
+				for _, g := range p.enclosingGuards(pm, n) {
+					t := squash(p.text(g.Cond))
+					if g.Val && (t == "strms[i].origType==frameType" || t == "frameType==strms[i].origType") {
+						origin = true
+					}
+					if g.Val && (t == "cnt!=0" || t == "cnt>0" || t == "cnt>=1") {
+						passed = true
+					}
+				}
+				return
+			}
+			ast.Inspect(fd.Body, func(n ast.Node) bool {
+				switch x := n.(type) {
+				case *ast.ReturnStmt:
+					if len(x.Results) == 1 && p.text(x.Results[0]) != "nil" {
+						nRet++
+						o, ps := under(x)
+						if !o || !ps || squash(p.text(x.Results[0])) != "strms[i]" {
+							okRet = false
+						}
+					}
+				case *ast.IncDecStmt:
+					if p.text(x.X) == "cnt" {
+						nInc++
+						o, ps := under(x)
+						if !o || ps || x.Tok != token.INC {
+							okInc = false
+						}
+					}
+				case *ast.AssignStmt:
+					if x.Tok != token.DEFINE && len(x.Lhs) == 1 && p.text(x.Lhs[0]) == "cnt" {
+						nInc++
+						okInc = false
+					}
+				}
+				return true
+			})
+			r.check(okRet && nRet > 0, "a stream is handed out only of the origin asked for, and only after one was passed", p.pos(fd.Pos()), "return strms[i] under origType == frameType and cnt != 0", "getPrevious hands out a stream that is not of the origin asked for, or the first one it meets: a stream created by PRIORITY (no header block, so never 'finished'), or the stream just created, then stops every new request with GOAWAY")
+			// newest first, every element
+			okLoop := false
+			for _, st := range fd.Body.List {
+				if fs, ok := st.(*ast.ForStmt); ok && fs.Init != nil && fs.Cond != nil && fs.Post != nil {
+					okLoop = squash(p.text(fs.Init)) == "i:=len(strms)-1" && squash(p.text(fs.Cond)) == "i>=0" && squash(p.text(fs.Post)) == "i--"
+				}
+			}
+			r.check(okLoop, "the table is walked from the newest stream to the oldest, all of it", p.pos(fd.Pos()), "for i := len(strms) - 1; i >= 0; i--", "getPrevious no longer walks the whole table from the newest stream down: the stream it hands out is not the one before the newest of that origin")
+			if gf := p.decl("(Streams).GetFirstOf"); gf != nil {
+				r.fn("(Streams).GetFirstOf")
+				okF, nF := true, 0
+				pm2 := p.pmFor(gf)
+				ast.Inspect(gf.Body, func(n ast.Node) bool {
+					if x, ok := n.(*ast.ReturnStmt); ok && len(x.Results) == 1 && p.text(x.Results[0]) != "nil" {
+						nF++
+						under := false
+						for _, g := range p.enclosingGuards(pm2, x) {
+							if g.Val && squash(p.text(g.Cond)) == "strm.origType==frameType" {
+								under = true
+							}
+						}
+						if !under || p.text(x.Results[0]) != "strm" {
+							okF = false
+						}
+					}
+					return true
+				})
+				r.check(okF && nF == 1, "GetFirstOf hands out a stream of the origin asked for", p.pos(gf.Pos()), "return strm under strm.origType == frameType", "GetFirstOf hands out a stream of another origin: the request timer is armed for a stream PRIORITY created, which never times out as a request does")
+			}
+			if dl := p.decl("(*Streams).Del"); dl != nil {
+				r.fn("(*Streams).Del")
+				okD := true
+				ast.Inspect(dl.Body, func(n ast.Node) bool {
+					ifs, ok := n.(*ast.IfStmt)
+					if !ok {
+						return true
+					}
+					trunc := false
+					for _, st := range ifs.Body.List {
+						if squash(p.text(st)) == "*strms=(*strms)[:0]" {
+							trunc = true
+						}
+					}
+					if trunc && !p.isConjunctionOf(ifs.Cond, "len(*strms)==1", "(*strms)[0].ID()==id") {
+						okD = false
+					}
+					return true
+				})
+				r.check(okD, "the table is emptied only when its one stream is the one to go", p.pos(dl.Pos()), "*strms = (*strms)[:0] only under len == 1 && [0].ID() == id", "Streams.Del empties the table under another condition than 'one stream, and it is the one': live streams vanish from the table and their frames are then taken for frames on closed streams")
+			}
+			r.check(okInc && nInc == 1, "only streams of that origin are counted", p.pos(fd.Pos()), "cnt++ under origType == frameType, nowhere else", "getPrevious no longer counts exactly the streams of the origin asked for")
+		},
+	})
 }
